@@ -38,8 +38,8 @@ TextOf(r, up) ==
 Allowed(r) == r.printed \in {TextOf(r, TRUE), TextOf(r, FALSE)}
 
 Init == l = 1
-Observe == l <= Len(Rec) /\ Allowed(Rec[l]) /\ l' = l + 1
-Reject  == /\ l <= Len(Rec) /\ ~Allowed(Rec[l])
+Observe == l <= Len(Rec) /\ (Allowed(Rec[l]) = TRUE) /\ l' = l + 1
+Reject  == /\ l <= Len(Rec) /\ (Allowed(Rec[l]) = FALSE)
            /\ PrintT(<<"REJECT", ToJson([id |-> Rec[l].id, want |-> TextOf(Rec[l], TRUE)])>>) /\ l' = l + 1
 Next == Observe \/ Reject
 Spec == Init /\ [][Next]_l
